@@ -93,7 +93,20 @@ def execute(p, ch):
         paused = [False] * len(eps)
         budget = p["toggles"]
         W = p.get("W", 2)
-        while True:
+        if p.get("backlog"):
+            # a deep backlog instead of a short burst: the victim is stalled from the start and never drains while
+            # thousands of messages are routed (in batches of p["batch"] per loop run); no choice points
+            paused[p["victim"]] = True
+            eps[p["victim"]].pause()
+            while remaining:
+                for m in remaining[: p["batch"]]:
+                    router.process_message(m, sender=None)
+                del remaining[: p["batch"]]
+                loop.quiesce()
+                while ctl is not None and len(ctl):
+                    ctl.run(0)
+                    loop.quiesce()
+        while not p.get("backlog"):
             menu = []
             if loop.has_ready():
                 menu.append(("iter",))
@@ -213,7 +226,14 @@ def configs(tier):
             out.append(dict(transport=tr, nconn=1, burst=2, toggles=3, victim=None, big=100000, big_at=0))
             out.append(dict(transport=tr, nconn=1, burst=3, toggles=2, victim=None, big=100000, big_at=1))
         out.append(dict(transport="tty", nconn=1, burst=2, toggles=0, victim=None, W=2, big=100000, big_at=0))
+        for victim in (0, 1, 2):
+            for batch in (1, 64, 2500):
+                out.append(dict(transport="tcp-server", nconn=3, burst=2500, toggles=0, victim=victim, backlog=True, batch=batch))
     else:
+        for victim in (0, 1, 2):
+            for batch in (1, 7, 64, 1000, 9000):
+                out.append(dict(transport="tcp-server", nconn=3, burst=9000, toggles=0, victim=victim, backlog=True, batch=batch))
+        out.append(dict(transport="mixed", nconn=2, burst=3000, toggles=0, victim=0, backlog=True, batch=64, W=2))
         for burst in (1, 2, 3, 4, 5):
             out.append(dict(transport="tcp-server", nconn=1, burst=burst, toggles=4, victim=None))
             out.append(dict(transport="tcp-client", nconn=1, burst=burst, toggles=4, victim=None))
